@@ -32,6 +32,29 @@ Qed.
 Lemma chk64_not_fail z : chk64 z <> Fail.
 Proof. unfold chk64. destruct (in_i64 z); discriminate. Qed.
 
+Lemma opt64_some z r : opt64 z = Some r -> r = z /\ i64_min <= z <= i64_max.
+Proof.
+  unfold opt64. destruct (in_i64 z) eqn:E; intro H; [|discriminate].
+  injection H as <-. split; [reflexivity | apply in_i64_spec; exact E].
+Qed.
+
+Lemma opt64_in z : i64_min <= z <= i64_max -> opt64 z = Some z.
+Proof. intro H. unfold opt64. apply in_i64_spec in H. rewrite H. reflexivity. Qed.
+
+Lemma opt64_none z : opt64 z = None <-> ~ (i64_min <= z <= i64_max).
+Proof.
+  unfold opt64. destruct (in_i64 z) eqn:E.
+  - apply in_i64_spec in E. split; [discriminate | tauto].
+  - split; [|reflexivity]. intros _ H. apply in_i64_spec in H. congruence.
+Qed.
+
+Lemma bind_not_panic {A B} (x : out A) (f : A -> out B) :
+  x <> Panic -> (forall a, f a <> Panic) -> bind x f <> Panic.
+Proof. destruct x; cbn; intros H1 H2; [apply H2 | discriminate | congruence]. Qed.
+
+Lemma ok_or_not_panic {A} (o : option A) : ok_or o <> Panic.
+Proof. destruct o; discriminate. Qed.
+
 Lemma chkus_ret z r : chkus z = Ret r -> r = z /\ 0 <= z <= usize_max.
 Proof.
   unfold chkus. destruct (in_usize z) eqn:E; intro H; [|discriminate].
